@@ -122,16 +122,20 @@ package storage
 //@   requires store_wf(s) && held[addr(s.pkcesMutex)] == 0 && (forall m2 V :: held[m2] != 0 ==> mrank(m2) < 2)
 //@   modifies held, mapof(s.PKCES)
 //@   ensures [C19.locks-released] held == old(held)
+//@   ensures [C03.store-pkce-table] err == nil && (code in s.PKCES) && s.PKCES[code] == req && (forall k string :: k != code ==> (k in s.PKCES) == old(k in s.PKCES) && s.PKCES[k] == old(s.PKCES[k]))
 
 //@ func (*MemoryStore).GetPKCERequestSession
 //@   requires store_wf(s) && held[addr(s.pkcesMutex)] == 0 && (forall m2 V :: held[m2] != 0 ==> mrank(m2) < 2)
 //@   modifies held
 //@   ensures [C19.locks-released] held == old(held)
+//@   ensures [C03.store-pkce-table] err == nil ==> (code in s.PKCES) && result == s.PKCES[code]
+//@   ensures [C03.store-pkce-table] !(code in s.PKCES) ==> err != nil && eis(err, fosite.ErrNotFound) && result == nil
 
 //@ func (*MemoryStore).DeletePKCERequestSession
 //@   requires store_wf(s) && held[addr(s.pkcesMutex)] == 0 && (forall m2 V :: held[m2] != 0 ==> mrank(m2) < 2)
 //@   modifies held, mapof(s.PKCES)
 //@   ensures [C19.locks-released] held == old(held)
+//@   ensures [C03.store-pkce-table] err == nil && !(code in s.PKCES) && (forall k string :: k != code ==> (k in s.PKCES) == old(k in s.PKCES) && s.PKCES[k] == old(s.PKCES[k]))
 
 //@ func (*MemoryStore).CreateAccessTokenSession
 //@   requires store_wf(s) && held[addr(s.accessTokenRequestIDsMutex)] == 0 && held[addr(s.accessTokensMutex)] == 0 && (forall m2 V :: held[m2] != 0 ==> mrank(m2) < 1)
@@ -217,16 +221,20 @@ package storage
 //@   requires store_wf(s) && held[addr(s.parSessionsMutex)] == 0 && (forall m2 V :: held[m2] != 0 ==> mrank(m2) < 2)
 //@   modifies held, mapof(s.PARSessions)
 //@   ensures [C19.locks-released] held == old(held)
+//@   ensures [C17.store-par-table] err == nil && (requestURI in s.PARSessions) && s.PARSessions[requestURI] == request && (forall k string :: k != requestURI ==> (k in s.PARSessions) == old(k in s.PARSessions) && s.PARSessions[k] == old(s.PARSessions[k]))
 
 //@ func (*MemoryStore).GetPARSession
 //@   requires store_wf(s) && held[addr(s.parSessionsMutex)] == 0 && (forall m2 V :: held[m2] != 0 ==> mrank(m2) < 2)
 //@   modifies held
 //@   ensures [C19.locks-released] held == old(held)
+//@   ensures [C17.store-par-table] err == nil ==> (requestURI in s.PARSessions) && result == s.PARSessions[requestURI]
+//@   ensures [C17.store-par-table] !(requestURI in s.PARSessions) ==> err != nil && eis(err, fosite.ErrNotFound) && result == nil
 
 //@ func (*MemoryStore).DeletePARSession
 //@   requires store_wf(s) && held[addr(s.parSessionsMutex)] == 0 && (forall m2 V :: held[m2] != 0 ==> mrank(m2) < 2)
 //@   modifies held, mapof(s.PARSessions)
 //@   ensures [C19.locks-released] held == old(held)
+//@   ensures [C17.store-par-one-time] err == nil && !(requestURI in s.PARSessions) && (forall k string :: k != requestURI ==> (k in s.PARSessions) == old(k in s.PARSessions) && s.PARSessions[k] == old(s.PARSessions[k]))
 
 //@ func (*MemoryStore).RotateRefreshToken
 //@   requires store_wf(s) && held[addr(s.refreshTokenRequestIDsMutex)] == 0 && held[addr(s.refreshTokensMutex)] == 0 && held[addr(s.accessTokenRequestIDsMutex)] == 0 && held[addr(s.accessTokensMutex)] == 0 && (forall m2 V :: held[m2] != 0 ==> mrank(m2) < 1)
@@ -242,23 +250,30 @@ package storage
 //@   requires store_wf(s) && held[addr(s.deviceAuthsMutex)] == 0 && (forall m2 V :: held[m2] != 0 ==> mrank(m2) < 2)
 //@   modifies held
 //@   ensures [C19.locks-released] held == old(held)
+//@   ensures [C16.store-device-table] err == nil ==> (signature in s.DeviceAuths) && result == s.DeviceAuths[signature]
+//@   ensures [C16.store-device-table] !(signature in s.DeviceAuths) ==> err != nil && eis(err, fosite.ErrNotFound) && result == nil
 
 //@ func (*MemoryStore).InvalidateDeviceCodeSession
 //@   requires store_wf(s) && held[addr(s.deviceAuthsRequestIDsMutex)] == 0 && held[addr(s.deviceAuthsMutex)] == 0 && (forall m2 V :: held[m2] != 0 ==> mrank(m2) < 1)
 //@   modifies held, mapof(s.DeviceAuths)
 //@   ensures [C19.locks-released] held == old(held)
+//@   ensures [C16.store-device-code-used-up] err == nil && !(code in s.DeviceAuths) && (forall k string :: k != code ==> (k in s.DeviceAuths) == old(k in s.DeviceAuths) && s.DeviceAuths[k] == old(s.DeviceAuths[k]))
 
 //@ func (*MemoryStore).CreateOpenIDConnectSession
 //@   requires store_wf(s) && held[addr(s.idSessionsMutex)] == 0 && (forall m2 V :: held[m2] != 0 ==> mrank(m2) < 2)
 //@   modifies held, mapof(s.IDSessions)
 //@   ensures [C19.locks-released] held == old(held)
+//@   ensures [C14.store-oidc-table] err == nil && (authorizeCode in s.IDSessions) && s.IDSessions[authorizeCode] == requester && (forall k string :: k != authorizeCode ==> (k in s.IDSessions) == old(k in s.IDSessions) && s.IDSessions[k] == old(s.IDSessions[k]))
 
 //@ func (*MemoryStore).GetOpenIDConnectSession
 //@   requires store_wf(s) && held[addr(s.idSessionsMutex)] == 0 && (forall m2 V :: held[m2] != 0 ==> mrank(m2) < 2)
 //@   modifies held
 //@   ensures [C19.locks-released] held == old(held)
+//@   ensures [C14.store-oidc-table] err == nil ==> (authorizeCode in s.IDSessions) && result == s.IDSessions[authorizeCode]
+//@   ensures [C14.store-oidc-table] !(authorizeCode in s.IDSessions) ==> err != nil && eis(err, fosite.ErrNotFound) && result == nil
 
 //@ func (*MemoryStore).DeleteOpenIDConnectSession
 //@   requires store_wf(s) && held[addr(s.idSessionsMutex)] == 0 && (forall m2 V :: held[m2] != 0 ==> mrank(m2) < 2)
 //@   modifies held, mapof(s.IDSessions)
 //@   ensures [C19.locks-released] held == old(held)
+//@   ensures [C14.store-oidc-table] err == nil && !(authorizeCode in s.IDSessions) && (forall k string :: k != authorizeCode ==> (k in s.IDSessions) == old(k in s.IDSessions) && s.IDSessions[k] == old(s.IDSessions[k]))
